@@ -73,6 +73,19 @@ Definition validate_with (lpv : pred -> bool) (d : def) : bool :=
 
 Definition legacy_validate : def -> bool := validate_with legacy_lp_validate.
 
+(* LogPredicate.Validate after the repair (commit 2ce1f88): a BytesEq predicate for a topic
+   needs a 32-byte argument.  ByteArgs[0] exists because ValuePredicate.Validate passed. *)
+Definition lp_validate (p : pred) : bool :=
+  ref_validate p && vp_validate p
+  && (if is_topic_eq p then
+        match p_bytes p with
+        | a :: _ => Nat.eqb (length a) 32
+        | [] => false   (* not reached: vp_validate demands one byte argument *)
+        end
+      else true).
+
+Definition validate : def -> bool := validate_with lp_validate.
+
 (* ---- codec --------------------------------------------------------------------------- *)
 
 Definition bool_item (b : bool) : item := Str (if b then [1%N] else []).
@@ -226,6 +239,7 @@ Definition unmarshal_with (val : def -> bool) (b : bytes) : ures :=
   end.
 
 Definition legacy_unmarshal : bytes -> ures := unmarshal_with legacy_validate.
+Definition unmarshal : bytes -> ures := unmarshal_with validate.
 
 (* ---- GetValue / Match ---------------------------------------------------------------- *)
 
@@ -291,6 +305,40 @@ Definition legacy_get_offset_data_value (p : pred) (lg : log) : vres :=
       end
   end.
 
+(* readWordAsUint64 (repair 9dbf1bd): RNo = "not ok", RPanic cannot happen (proved) *)
+Inductive rres := RWord (w : Z) | RNo | RPanic.
+
+Definition read_word_u64 (data : bytes) (start : Z) : rres :=
+  let dataLen := zlen data in
+  if ((dataLen <? 32) || (u64 (dataLen - 32) <? start))%Z then RNo
+  else match slice data start (u64 (start + 32)) with
+       | None => RPanic
+       | Some w => RWord (word_u64 w)
+       end.
+
+(* getOffsetDataValue after the repair (commit 9dbf1bd) *)
+Definition get_offset_data_value (p : pred) (lg : log) : vres :=
+  let data := l_data lg in
+  let dataOffset := u64 (Z.of_N (p_off p) - 4) in
+  let offsetStartByte := u64 (dataOffset * 32) in
+  match read_word_u64 data offsetStartByte with
+  | RPanic => VPanic
+  | RNo => VOk []
+  | RWord lengthByteOffset =>
+      match read_word_u64 data lengthByteOffset with
+      | RPanic => VPanic
+      | RNo => VOk []
+      | RWord len =>
+          let startByte := u64 (lengthByteOffset + 32) in
+          if (u64 (zlen data - startByte) <? len)%Z then VOk []
+          else if (max_alloc <? len)%Z then VPanic   (* makeslice; not reached *)
+          else match slice data startByte (u64 (startByte + len)) with
+               | None => VPanic
+               | Some s => VOk (copy_into (Z.to_nat len) s)
+               end
+      end
+  end.
+
 (* LogValueRef.GetValue, over the dynamic-reference reader [godv] *)
 Definition get_value_with (godv : pred -> log -> vres) (p : pred) (lg : log) : vres :=
   if is_topic p then
@@ -347,6 +395,14 @@ Definition match_with (godv : pred -> log -> vres) (d : def) (lg : log) : mres :
   else match_preds_with godv (d_preds d) lg.
 
 Definition legacy_match : def -> log -> mres := match_with legacy_get_offset_data_value.
+
+Definition get_value : pred -> log -> vres := get_value_with get_offset_data_value.
+Definition lp_match : pred -> log -> mres := lp_match_with get_offset_data_value.
+Definition match_preds : list pred -> log -> mres := match_preds_with get_offset_data_value.
+Definition match_def : def -> log -> mres := match_with get_offset_data_value.
+
+(* len(log.Data) cannot exceed what the Go runtime can allocate *)
+Definition wf_log (lg : log) : Prop := (zlen (l_data lg) <= max_alloc)%Z.
 
 (* ---- ToFilterQuery and the node-side filter ------------------------------------------ *)
 
